@@ -9,6 +9,7 @@ import (
 	"go/token"
 	"go/types"
 	"reflect"
+	"slices"
 	"strings"
 
 	"github.com/kaptinlin/gozod/pkg/tagparser"
@@ -262,23 +263,34 @@ func (a *StructAnalyzer) getReflectType(expr ast.Expr) reflect.Type {
 
 // typesToReflectType converts go/types.Type to reflect.Type.
 func (a *StructAnalyzer) typesToReflectType(t types.Type) reflect.Type {
+	return a.typesToReflectTypeOn(t, nil)
+}
+
+// typesToReflectTypeOn is typesToReflectType with the stack of named types
+// currently being converted. A named type that refers to itself without
+// passing through a struct (type A []A, type M map[string]M) is converted
+// to any at the point of recursion instead of being followed forever.
+func (a *StructAnalyzer) typesToReflectTypeOn(t types.Type, stack []*types.Named) reflect.Type {
 	switch typ := t.(type) {
 	case *types.Basic:
 		return basicKindToReflectType(typ.Kind())
 	case *types.Pointer:
-		return reflect.PointerTo(a.typesToReflectType(typ.Elem()))
+		return reflect.PointerTo(a.typesToReflectTypeOn(typ.Elem(), stack))
 	case *types.Slice:
-		return reflect.SliceOf(a.typesToReflectType(typ.Elem()))
+		return reflect.SliceOf(a.typesToReflectTypeOn(typ.Elem(), stack))
 	case *types.Array:
-		return reflect.SliceOf(a.typesToReflectType(typ.Elem()))
+		return reflect.SliceOf(a.typesToReflectTypeOn(typ.Elem(), stack))
 	case *types.Map:
-		return reflect.MapOf(a.typesToReflectType(typ.Key()), a.typesToReflectType(typ.Elem()))
+		return reflect.MapOf(a.typesToReflectTypeOn(typ.Key(), stack), a.typesToReflectTypeOn(typ.Elem(), stack))
 	case *types.Named:
 		obj := typ.Obj()
 		if obj != nil && obj.Pkg() != nil && obj.Pkg().Path() == "time" && obj.Name() == "Time" {
 			return reflect.TypeFor[timeType]()
 		}
-		return a.typesToReflectType(typ.Underlying())
+		if slices.Contains(stack, typ) {
+			return reflect.TypeFor[any]()
+		}
+		return a.typesToReflectTypeOn(typ.Underlying(), append(stack, typ))
 	case *types.Interface:
 		return reflect.TypeFor[any]()
 	default:
